@@ -6,14 +6,19 @@
 //!   C09: if some version no longer restores exactly as before the damage, validation (full; quick for missing
 //!        files) must report at least one error.
 //!   C10: no operation may panic; a version whose restore output changed must have reported an error.
-//! Input for replay: {"file": "<archive-relative path>", "action": "delete"|"truncate0"}.
+//!   C10 (containment): when the damaged file is an index hunk of a COMPLETE version, every file whose entry lives in a
+//!        DIFFERENT, untouched hunk of that version (computed from the undamaged index, read hunk by hunk through
+//!        `Band::index().read_hunk`) must still restore exactly; only the files of the damaged hunk itself may be
+//!        missing (that part is the recorded known finding).
+//! Actions: delete, truncate0, truncate_half (first half of the bytes kept), garbage (64 bytes of 0xA5).
+//! Input for replay: {"file": "<archive-relative path>", "action": "delete"|"truncate0"|"truncate_half"|"garbage"}.
 
 use std::collections::BTreeMap;
 use std::path::{Path, PathBuf};
 use std::sync::Arc;
 
 use conserve::monitor::test::TestMonitor;
-use conserve::{Archive, BackupOptions, BandId, BandSelectionPolicy, RestoreOptions, ValidateOptions};
+use conserve::{Archive, BackupOptions, Band, BandId, BandSelectionPolicy, Kind, RestoreOptions, ValidateOptions};
 use serde_json::{json, Value};
 
 pub fn dispatch(mode: &str, kind: &str, input: Option<&Value>) -> Option<Value> {
@@ -101,6 +106,37 @@ fn run(only: Option<(String, String)>) -> Option<Value> {
         std::fs::write(src.join("z_small"), b"zulu").ok()?;
         conserve::backup(&archive, &src, &opts(), Arc::new(conserve::monitor::void::VoidMonitor)).await.ok()?;
         std::fs::remove_file(apath.join("b0002/BANDTAIL")).ok()?;
+        // which files each hunk of the two complete versions records (before any damage)
+        let mut hunk_files: Vec<Vec<(String, Vec<String>, Vec<String>)>> = Vec::new(); // per band: (hunk file, files, directories recorded in it)
+        for b in 0..2u32 {
+            let setup_err = |what: String| Some(json!({"found": false, "kind": "damage_sweep", "error": format!("setup: {what}")}));
+            let band = match Band::open(&archive, BandId::new(&[b])).await {
+                Ok(band) => band,
+                Err(e) => return setup_err(format!("open b{b:04}: {e}")),
+            };
+            let numbers = match band.index().hunks_available().await {
+                Ok(n) => n,
+                Err(e) => return setup_err(format!("hunks of b{b:04}: {e}")),
+            };
+            let mut per_hunk = Vec::new();
+            for n in numbers {
+                let rel = format!("b{b:04}/i/{:05}/{:09}", n / 10000, n);
+                if !apath.join(&rel).is_file() {
+                    return setup_err(format!("hunk {n} of b{b:04} is not stored as {rel}"));
+                }
+                match band.index().read_hunk(n).await {
+                    Ok(Some(es)) => {
+                        let of_kind = |k: Kind| -> Vec<String> { es.iter().filter(|e| e.kind == k).map(|e| e.apath.to_string()[1..].to_string()).collect() };
+                        per_hunk.push((rel, of_kind(Kind::File), of_kind(Kind::Dir)))
+                    }
+                    other => return setup_err(format!("undamaged hunk {rel} reads as {:?}", other.map(|o| o.map(|v| v.len())).map_err(|e| e.to_string()))),
+                }
+            }
+            if per_hunk.len() < 2 {
+                return setup_err(format!("b{b:04} has fewer than two hunks"));
+            }
+            hunk_files.push(per_hunk);
+        }
         drop(archive);
 
         if validate_errors(&apath, false).await != 0 || validate_errors(&apath, true).await != 0 {
@@ -118,7 +154,7 @@ fn run(only: Option<(String, String)>) -> Option<Value> {
             if rel == "CONSERVE" || rel.ends_with("BANDTAIL") || rel == "GC_LOCK" {
                 continue;
             }
-            for action in ["delete", "truncate0"] {
+            for action in ["delete", "truncate0", "truncate_half", "garbage"] {
                 if let Some((of, oa)) = &only {
                     if *of != rel || oa != action {
                         continue;
@@ -127,14 +163,19 @@ fn run(only: Option<(String, String)>) -> Option<Value> {
                 let original = std::fs::read(&fpath).ok()?;
                 match action {
                     "delete" => std::fs::remove_file(&fpath).ok()?,
-                    _ => std::fs::write(&fpath, b"").ok()?,
+                    "truncate0" => std::fs::write(&fpath, b"").ok()?,
+                    "truncate_half" => std::fs::write(&fpath, &original[..original.len() / 2]).ok()?,
+                    "garbage" => std::fs::write(&fpath, [0xA5u8; 64]).ok()?,
+                    _ => return Some(json!({"found": false, "kind": "damage_sweep", "error": format!("unknown action {action}")})),
                 }
                 let mut changed = Vec::new();
+                let mut afters: Vec<Outcome> = Vec::new();
                 for b in 0..3u32 {
                     let after = restore_outcome(&apath, b, tmp.path(), "after").await;
                     if after.0 != before[b as usize].0 || (after.1 != before[b as usize].1) {
                         changed.push((b, after.1, after.0 != before[b as usize].0));
                     }
+                    afters.push(after);
                 }
                 let full = validate_errors(&apath, false).await;
                 let quick = validate_errors(&apath, true).await;
@@ -146,13 +187,34 @@ fn run(only: Option<(String, String)>) -> Option<Value> {
                 if hunk_of_interrupted_band {
                     continue;
                 }
+                // containment: files recorded in OTHER hunks of the same complete version are untouched by this damage
+                for (b, per_hunk) in hunk_files.iter().enumerate() {
+                    if !per_hunk.iter().any(|h| h.0 == rel) {
+                        continue;
+                    }
+                    // (a file below a directory whose own entry is in the damaged hunk cannot be created: same known finding)
+                    let lost_dirs: Vec<String> = per_hunk.iter().filter(|h| h.0 == rel).flat_map(|h| h.2.iter()).filter(|d| !d.is_empty()).map(|d| format!("{d}/")).collect();
+                    let lost: Vec<&String> = per_hunk.iter().filter(|h| h.0 != rel).flat_map(|h| h.1.iter())
+                        .filter(|f| !lost_dirs.iter().any(|d| f.starts_with(d.as_str())))
+                        .filter(|f| before[b].0.contains_key(*f) && afters[b].0.get(*f) != before[b].0.get(*f)).collect();
+                    if !lost.is_empty() {
+                        let own: Vec<&String> = per_hunk.iter().filter(|h| h.0 == rel).flat_map(|h| h.1.iter()).collect();
+                        return Some(json!({"found": true, "kind": "damage_sweep", "input": input,
+                            "real": format!("restore of b{b:04} no longer gives {lost:?} exactly, although their entries are in other, untouched hunks (the damaged hunk records only {own:?}); restore reported {} error(s)",
+                                if afters[b].1 == usize::MAX { "a failure and".to_string() } else { afters[b].1.to_string() }),
+                            "expected": "only the files recorded in the damaged hunk may be affected",
+                            "explain": "damage to one index hunk of a complete version spread to files recorded in other hunks"}));
+                    }
+                }
                 if !changed.is_empty() && full == 0 {
                     return Some(json!({"found": true, "kind": "damage_sweep", "input": input,
                         "real": format!("versions whose restore changed: {:?}; full validation reported 0 errors (quick: {quick})", changed.iter().map(|c| format!("b{:04}", c.0)).collect::<Vec<_>>()),
                         "expected": "at least one validation error",
                         "explain": "a stored file was damaged so that some version no longer restores exactly, yet validation is silent"}));
                 }
-                if !changed.is_empty() && quick == 0 {
+                // content damage inside a data block is outside quick validation's scope (it does not read blocks)
+                let quick_in_scope = action == "delete" || action == "truncate0" || !rel.starts_with("d/");
+                if !changed.is_empty() && quick == 0 && quick_in_scope {
                     return Some(json!({"found": true, "kind": "damage_sweep", "input": input,
                         "real": format!("versions whose restore changed: {:?}; quick validation reported 0 errors", changed.iter().map(|c| format!("b{:04}", c.0)).collect::<Vec<_>>()),
                         "expected": "at least one validation error (missing / emptied files are in quick validation's scope)",
@@ -180,7 +242,7 @@ fn guarded(only: Option<(String, String)>) -> Value {
     match std::panic::catch_unwind(move || run(only)) {
         Ok(Some(v)) => v,
         Ok(None) => json!({"found": false, "kind": "damage_sweep",
-            "explain": "every archive file x {delete, truncate0}: restore changes are always accompanied by validation errors and restore errors; no panic"}),
+            "explain": "every archive file x {delete, truncate0, truncate_half, garbage}: restore changes are always accompanied by validation errors and restore errors; files in untouched hunks still restore; no panic"}),
         Err(p) => {
             let msg = p.downcast_ref::<String>().cloned().or_else(|| p.downcast_ref::<&str>().map(|s| s.to_string())).unwrap_or_default();
             json!({"found": true, "kind": "damage_sweep", "input": {"file": null, "action": "sweep"}, "real": format!("panic: {msg}"),
